@@ -866,15 +866,20 @@ Definition covered (tbl : list lib_row) (fi : list (Z * N)) (m : msg) : bool :=
 Inductive case :=
 | CTree (m : msg) (tbl : list lib_row) (fi : list (Z * N)) (obs : list (accessor * res val))
   (* every listed accessor applied to RedisResult{val: m} *)
+| CTrees (ts : list (msg * list lib_row * list (Z * N) * list (accessor * res val)))
+  (* several trees at once: sampled deformations of one seed reply (the observer sweeps all of them through its oracles) *)
 | CResErr (k : N) (m : msg) (obs : list (accessor * res val))
   (* every listed accessor applied to RedisResult{err: non-redis error k, val: m} *)
 | CCls (k : classifier) (text : bytes) (impl : res val)
 | CFixAddr (addr : bytes) (impl : bytes).
 
+Definition check_tree (m : msg) (tbl : list lib_row) (fi : list (Z * N)) (obs : list (accessor * res val)) : bool :=
+  covered tbl fi m && forallb (fun ao => res_eqb (run (env_of tbl fi) (fst ao) m) (snd ao)) obs.
+
 Definition check_case (c : case) : bool :=
   match c with
-  | CTree m tbl fi obs =>
-    covered tbl fi m && forallb (fun ao => res_eqb (run (env_of tbl fi) (fst ao) m) (snd ao)) obs
+  | CTree m tbl fi obs => check_tree m tbl fi obs
+  | CTrees ts => forallb (fun t => let '(m, tbl, fi, obs) := t in check_tree m tbl fi obs) ts
   | CResErr k m obs =>
     forallb (fun ao => res_eqb (run_result (env_of [] []) (fst ao) (Some k) m) (snd ao)) obs
   | CCls k text impl => res_eqb (classify k text) impl
